@@ -20,6 +20,14 @@ EMPHASIS = {
            "(still before its first use and after the definitions it reads), swap the operands of a commutative tensor op, rewrite `x - y > 0` style tests only when exactly "
            "equivalent for the dtype, replace an in-place tensor update by the out-of-place one assigned to the same name (only when no alias of the tensor is live), "
            "pass an argument by keyword instead of position or back, split a function's long body with a nested closure or a private helper that returns a tuple. "),
+    "w5": ("For this round prefer edit kinds that change HOW a value is computed or represented, not only where: integer arithmetic re-associated or rewritten exactly "
+           "(`a - b + c` <-> `a + c - b`; `n - n % w` <-> `n // w * w` for non-negative ints; `(a + b - 1) // b` <-> `-(-a // b)`), boolean algebra (De Morgan, `not a == b` <-> `a != b`, "
+           "`a < b` <-> `b > a`, a flag variable replaced by the test it stores or the reverse, two flags merged into one small integer/enum-like local or split), data representation of "
+           "intermediates (a tuple <-> separate variables, a dict <-> parallel lists, `list.append` loop <-> comprehension, building a result incrementally <-> in one expression), "
+           "function <-> method forms of tensor ops (`torch.sum(x, 1)` <-> `x.sum(1)`, `torch.where(m, a, b)` <-> `a.masked_fill(~m, ...)` only when exactly equal incl. dtype), "
+           "chained calls split over statements or merged, a private helper (module-level, static, or instance method) with several return statements / guard clauses extracted from the "
+           "middle of a function or inlined back, a loop-carried variable renamed and its update moved to the top or bottom of the loop body when equivalent, default values moved between "
+           "the signature of a PRIVATE helper and its call sites. Keep public signatures, defaults, messages and exception types exactly as they are. "),
 }
 emph = EMPHASIS.get(sys.argv[4] if len(sys.argv) > 4 else "", "")
 out = os.path.dirname(wt.rstrip("/"))
